@@ -703,6 +703,9 @@ func (s *csrSuite) opParams() int {
 		auth, authTok = w.Users[r.Intn(5)].String(), 0
 	}
 	en := r.Intn(8) != 0
+	if !w.App.CSRKeeper.GetParams(w.Ctx).EnableCsr {
+		en = r.Intn(8) != 0 || en // a disabled module is mostly switched on again
+	}
 	share := s.randShare(true)
 	shareTok := "nil"
 	if !share.IsNil() {
@@ -769,7 +772,11 @@ func runCsr(seed uint64, nOps int, outPath string) map[string]int {
 		}
 		for i := 0; i < budget && done < nOps; {
 			var n int
-			switch k := s.r.Intn(100); {
+			k := s.r.Intn(100)
+			if !s.w.App.CSRKeeper.GetParams(s.w.Ctx).EnableCsr && s.r.Intn(3) == 0 {
+				k = 85 // do not linger in the disabled state
+			}
+			switch {
 			case k < 68:
 				n = s.opHook(nil, nil)
 			case k < 80:
